@@ -43,6 +43,7 @@ from zope.interface import implementer
 from twisted.internet import defer, error, interfaces
 from twisted.python.failure import Failure
 
+from .. import env
 from ..core import HarnessError, StopRun
 from ..ctlpeer import CtlPeer, Reply, ok, err
 
@@ -978,7 +979,7 @@ class LaunchRun(object):
         import txtorcon.controller as controller
         import txtorcon.torcontrolprotocol as tcp
         sim = self.sim
-        outer = os.path.join(SCRATCH_PARENT, 'txsim-%d' % os.getpid())
+        outer = os.path.join(SCRATCH_PARENT, 'txsim-%07d' % env.REAL_GETPID())   # constant width: the path's length is on the wire
         shutil.rmtree(outer, ignore_errors=True)
         os.mkdir(outer, 0o700)
         self.root = outer
